@@ -505,17 +505,28 @@ def run_check(prop, spec, tier, seed):
         fn = o.get('tie')
         if not fn:
             continue
-        try:
-            st = fn(rng, big)
-        except Exception as ex:
-            st = dict(evaluations=0, mismatches=[dict(why='tie crashed: %s' % ex, trace=traceback.format_exc()[-800:])])
+        # every tie draws from its own generator (seed, obligation): a reported mismatch can be re-run on exactly the
+        # same cases.  A correspondence that really broke is deterministic and fails again; one that failed once for an
+        # environmental reason (the Lean driver starved on a loaded machine, a truncated pipe) does not, and is not a verdict
+        def run_tie():
+            try:
+                return fn(random.Random('%s:%s' % (R.seed, o['id'])), big)
+            except Exception as ex:
+                return dict(evaluations=0, mismatches=[dict(why='tie crashed: %s' % ex, trace=traceback.format_exc()[-800:])])
+        st = run_tie()
+        if st.get('mismatches'):
+            st2 = run_tie()
+            if not st2.get('mismatches'):
+                R.notes.append('tie %s reported a mismatch that did not reproduce on the same cases: %s'
+                               % (o['id'], json.dumps(st['mismatches'][0], default=str)[:1500]))
+                st = st2
         R.ev['evaluations'] += st.get('evaluations', 0)
         R.ev['distinct_nontrivial'] += st.get('distinct_nontrivial', 0)
         R.ev['correspondence'][o['id']] = {k: v for k, v in st.items() if k not in ('mismatches', 'samples')}
         R.ev['samples'] += st.get('samples', [])[:1]
         if st.get('mismatches'):
             if status.get(o['id'], (True,))[0]:
-                status[o['id']] = (False, 'tie %s no longer checks: %s' % (o['id'], json.dumps(st['mismatches'][0], default=str)[:400]))
+                status[o['id']] = (False, 'tie %s no longer checks: %s' % (o['id'], json.dumps(st['mismatches'][0], default=str)[:4000]))
 
     # 4. oracles on the real code (tests; they support the search for a
     #    failing input and cover what is modelled-not-verified) -----------
@@ -673,6 +684,8 @@ def write_evidence(R, spec):
     )
     if 'leanchecker' in ev:
         cov['leanchecker'] = ev['leanchecker']
+    if R.notes:
+        cov['notes'] = [str(n)[:2000] for n in R.notes][:20]
     out = dict(property_id=R.prop, tier=R.tier, seed=R.seed, level='proof', coverage=cov,
                assumptions=TRUSTED_BASE + spec.get('trusted_extra', []),
                wall_s=round(time.time() - R.t0, 2), violations=len(R.violations))
